@@ -404,6 +404,8 @@ theorem step_grow (p : P) (op : Op) : Grow p (step p op).1 := by
     · split
       · split <;> exact Grow.of_eq rfl
       · exact Grow.refl p
+  | removeMapping a b => simp only [step]; split <;> exact Grow.of_eq rfl
+  | clearMappings a => simp only [step]; split <;> exact Grow.of_eq rfl
   | string s => exact Grow.of_eq rfl
   | category a b => simp only [step]; exact Grow.of_eq (by simp)
   | subcategory a b =>
